@@ -258,11 +258,6 @@ func C03_resolve_adversarial() {
 	}
 	root := c03RootFor(strategy)
 	sym.Budget(3_000_000)
-	// reflection strategy: omitted / null / mistyped arguments reach reflect.Value.Call unchecked
-	badArgs := (q >= 3 && q <= 6) || ((q == 8 || q == 9) && varkind == 0) || (q == 9 && varkind == 6)
-	if strategy == 0 && sym.Known("C03-reflect-args-panic", badArgs) {
-		return
-	}
 	res := root.ResolveString(adversarial[q], "", map[string]interface{}{"v": v})
 	sym.Assert(res != nil, "a response is returned")
 }
@@ -394,8 +389,7 @@ var c03AbsRequests = []string{
 // C03_abstract_args: fields with several declared arguments, partly supplied,
 // selected on an interface / union whose list holds objects of several
 // concrete types in every order: the same selection node is resolved under
-// each of them.  (Resolver nodes bound with RegisterType; argument handling
-// of the reflection strategy is the recorded finding of C03_resolve_adversarial.)
+// each of them.  (Resolver nodes bound with RegisterType.)
 func C03_abstract_args() {
 	req := c03AbsRequests[sym.Choice("request", len(c03AbsRequests))]
 	n := 1 + sym.Choice("elements", 3)
